@@ -19,6 +19,10 @@ def run_property(prop, tier, seed, root=None, quiet=False, only=None):
         repo = Repo(root)
         mod = importlib.import_module('pvs.rules.' + prop.lower())
         mod.run(repo, chk)
+        from .rules import generic
+        from .lib import Rules
+        generic.cone_rule(repo, chk, Rules(repo, chk))
+        generic.state_rule(repo, chk)
         if tier == 'thorough' and root is None:
             from . import selftest
             selftest.run(prop, repo, chk, seed)
